@@ -40,6 +40,27 @@ IntDocAt(j) ==
   IN  Item("ints", MkDoc([base EXCEPT ![sl[2]] = SpellInt(v, sp)]), j)
 
 Two256 == BnPow2(256)
+\* DECIMAL NEIGHBOURS OF SHORT NUMBERS: m * 10^k + d for small d - JSON literals (plain, ".0", exponent form) that lie
+\* within half an ulp of a double whose own decimal expansion is short.  A reader that goes through binary64 and then
+\* trusts "few significant digits" signs m * 10^k instead of the number written (1000 ETH + 1 wei -> 1000 ETH).  The
+\* literal is taken at its exact value or refused (an open spelling above 2^53), never at the neighbour.
+Pow10(k) == BnFromDec(<<1>> \o Zeros(k))
+Mants == <<<<1>>, <<1, 3, 3, 7>>, <<9>>, <<2, 5>>>>
+NbKs == IF Thorough THEN [i \in 1..61 |-> 15 + i] ELSE <<16, 17, 18, 19, 20, 21, 22, 23, 24, 27, 30, 38, 45, 60, 70, 76>>
+NbDs == <<1, 2, 7, 1000>>
+NNeighbours == Len(NbKs) * Len(Mants) * Len(NbDs) * 2
+NeighbourAt(j) ==
+  LET q  == j - 1
+      k  == NbKs[1 + (q % Len(NbKs))]
+      m  == Mants[1 + ((q \div Len(NbKs)) % Len(Mants))]
+      d  == NbDs[1 + ((q \div (Len(NbKs) * Len(Mants))) % Len(NbDs))]
+      up == (q \div (Len(NbKs) * Len(Mants) * Len(NbDs))) = 0
+      rnd == BnFromDec(m \o Zeros(k - Len(m) + 1))                                   \* m * 10^(k - len(m) + 1): k + 1 digits
+      v  == IF up THEN BnAdd(rnd, BnFromNat(d)) ELSE BnSub(rnd, BnFromNat(d))
+      sl == Slots[1 + ((j * 5) % Len(Slots))]
+      base == Default(sl[1], <<36, j>>)
+      lit == IF j % 3 = 0 THEN DecS(v) \o ".0" ELSE IF j % 3 = 1 THEN DecS(v) ELSE DecS(v) \o "e0"
+  IN  Item("decimal_neighbours", MkDoc([base EXCEPT ![sl[2]] = NNum(lit)]), j)
 Malformed == <<
   NNum("-1"), NNum("-1.0"), NNum("-1e0"), NNum("-255"), NStr("-1"), NStr("-0x1"), NNum("-0"), NNum("-0.0"), NStr("-0"),
   NNum("1.5"), NNum("0.5"), NNum("1e-1"), NNum("15e-1"), NNum("1e400"), NNum("1e-400"),
@@ -118,7 +139,8 @@ O3 == O2 + NFields
 O4 == O3 + 2
 O5 == O4 + NEveryChar
 O6 == O5 + NBadPresence
-Count == O6 + NDup
+O7 == O6 + NDup
+Count == O7 + NNeighbours
 ItemAt(g) ==
   IF g <= O1 THEN IntDocAt(g)
   ELSE IF g <= O2 THEN MalformedAt(g - O1)
@@ -126,7 +148,8 @@ ItemAt(g) ==
   ELSE IF g <= O4 THEN NullChainAt(g - O3)
   ELSE IF g <= O5 THEN EveryCharAt(g - O4)
   ELSE IF g <= O6 THEN BadPresenceAt(g - O5)
-  ELSE DupAt(g - O6)
+  ELSE IF g <= O7 THEN DupAt(g - O6)
+  ELSE NeighbourAt(g - O7)
 Histories == IF "VERIF_TIER" \in DOMAIN IOEnv /\ IOEnv.VERIF_TIER = "thorough" THEN 300 ELSE 40
 VARIABLE n
 INSTANCE GenBase
